@@ -179,6 +179,7 @@ func (w *dynCompressor) Reset(under io.Writer) {
 
 	w.idx = 0
 	w.end = 0
+	w.tokens = w.tokens[:0]
 
 	w.buf.reset()
 	w.lz77.reset()
